@@ -162,6 +162,7 @@ Definition adjust_patch_level (v : apl_variant) (target common : path) (d : opti
           if Nat.eqb n (List.length common) then Ok d
           else Ok (Some (map (fun e => fold_left (fun nd k => DPatch k [nd]) (rev (skipn n common)) e) es))
       end
+  | APLOther => Err OutOfFuel      (* not modelled: the correspondence check will report the disagreement *)
   end.
 
 Definition extend (acc : diff) (d : option diff) : res diff :=
